@@ -59,11 +59,19 @@ def run(res):
     texts, meta = [], []
     for text, _ in FORMS:
         texts.append(text + "\n")
+    import re
     for name, _, _, _, _, opts in devs[1:]:
         for text, flags in FORMS:
             t = ".device %s\n%s\n" % (name, text)
             texts.append(t)
             meta.append((t, name, text, flags, set(opts)))
+            # the same form with its first register written through a .def alias: the verdict must not depend on the spelling
+            m = re.search(r"\br(\d+)\b", text)
+            if m:
+                al = text[:m.start()] + "Al_1" + text[m.end():]
+                t2 = ".device %s\n.def al_1 = r%s\n%s\n" % (name, m.group(1), al)
+                texts.append(t2)
+                meta.append((t2, name, text, flags, set(opts)))
     # sequences: the verdict on an instruction must not depend on what was assembled before it - every ordered pair of forms of
     # one mnemonic, and random triples of forms, under every device
     import random
